@@ -14,7 +14,11 @@ CHECKS = {
             "Every multiset of up to 3 (quick) / 4 (thorough) ranges over a boundary alphabet of 73 ranges (bank starts, both sides of "
             "the 10000 and 40000 bank edges, nested/overlapping/adjacent/duplicate shapes), every reach in {None,0,1,2,5,100} and limit "
             "in {None,1,2,3}, plus large-count pairs around the default 123/1968 limits and shatter() for every count 0..2100: all "
-            "executed on the real functions; an enumeration, not a sample, so within the alphabet no input violates the statement.",
+            "executed on the real functions; an enumeration, not a sample, so within the alphabet no input violates the statement. "
+            "The real poller loop (poller_modbus._poller) is run for 4 poll cycles under a virtual clock against a scripted device for "
+            "every non-empty subset of 7 addresses in 3 banks x reach {1,3,100} x {no failure, one transient read failure at every "
+            "read position of cycles 0/1, a register registered later}: every cycle's reads must satisfy the same clauses for the "
+            "registers known at that time and only known addresses may be stored.",
             "Addresses/counts outside the alphabet and sets of more than 4 ranges are not enumerated; merge is a sorted sweep whose "
             "decisions depend only on neighbouring ranges, which is why 4 ranges over clustered addresses exercise every branch pairing.",
             "DESIGN.md §3 C19"),
